@@ -3,6 +3,10 @@
 //! `VERIF-REPORT` line.
 use vcommon::{Args, Report};
 
+mod c23;
+mod c32;
+mod c33;
+mod c39;
 mod c40;
 mod unitvm;
 
@@ -11,6 +15,10 @@ fn main() {
     let which = args.positional.first().cloned().unwrap_or_default();
     let mut rep = Report::new(&which);
     match which.as_str() {
+        "C23" => c23::run(&args, &mut rep),
+        "C32" => c32::run(&args, &mut rep),
+        "C33" => c33::run(&args, &mut rep),
+        "C39" => c39::run(&args, &mut rep),
         "C40" => c40::run(&args, &mut rep),
         _ => {
             eprintln!("unknown unit monitor {:?}", which);
